@@ -117,8 +117,14 @@ func (m *FMsg) Body() []byte {
 		e.u32(ProtoGSS)
 	case "cancel":
 		e.u32(ProtoCancel)
-		e.u32(1234)
-		e.u32(5678)
+		if m.Data != nil {
+			// a cancel key of another length (protocol 3.2 keys are longer), or a
+			// truncated one
+			e.b = append(e.b, m.Data...)
+		} else {
+			e.u32(1234)
+			e.u32(5678)
+		}
 	case "p", "Q", "f":
 		e.cstr(m.S1)
 	case "P":
